@@ -419,6 +419,15 @@ impl<'a> Walk<'a> {
                     }
                 }
             }
+            // ... and finally ids that no buffer has at all (just past the queue, far outside, and
+            // aliasing a valid id after truncation to 16 bits): an error or a clean panic, never an
+            // access through them (a wild access crashes the run or is reported by AddressSanitizer)
+            for id in [size as u32, size as u32 + 3, 0xffff, 0x1_0000 + (size as u32 - 1), 0x7fff_ffff] {
+                let _ = self.dev.q.push_used_raw(id, 1);
+                if matches!(poll("none"), Got::Panic) {
+                    break;
+                }
+            }
         }
     }
 
